@@ -263,3 +263,126 @@ Qed.
    flows only into content_encrypt and cek_encrypt, the nonce only into the GCM parameters, (kek, key_identifier) = key.new_kek() *)
 Lemma draw_sites : k_cek_generate_draws = (256, 12) /\ k_encrypt_blob_flow = true.
 Proof. split; reflexivity. Qed.
+
+(* ---- the two halves together: in a history of well-formed nonce-mode protect calls for one root key (interleaved
+   with arbitrary unprotect calls, the cache reused throughout) the blobs of any two successful protect calls carry
+   different GCM nonces, different key-identifier nonces, different wrapped CEKs and different ciphertexts ---- *)
+Section History.
+Context (c : Crypto) (h : hash) (rk : root_key) (rkid : bytes).
+Hypothesis Hhash : rk_hash rk = Ok h.
+Hypothesis Halg : rk_kdf_alg rk = STR_KDF_ALG.
+Hypothesis Hrk : len rkid = 16.
+Hypothesis Hne : kdf_nonempty c.
+
+Definition call_ok (r1 r2 r3 : bytes) (a : call) : Prop :=
+  a_rkid a = Some rkid /\ sid_okb (a_sid a) = true /\ 0 <= a_time a /\ len r2 = 12 /\ len r3 = 32 /\
+  exists s, sid_parse (a_sid a) = Ok s /\
+    forall l0 l1 l2, interval_of_time_ns (a_time a) = (l0, l1, l2) ->
+      (forall kek w, derived_kek c h rk rkid (target_sd s) l0 l1 l2 r3 = Ok kek -> kw_wrap c kek r1 = Ok w -> len w < U32) /\
+      (forall ct, gcm_enc c r1 r2 (a_data a) = Ok ct -> len ct < U32).
+
+Lemma trace_entries_inv rnd : forall ops cur cache k e, cache_inv c h rk rkid cache ->
+  nth_error (trace c rnd cur cache ops) k = Some e ->
+  exists cache_k a, cache_inv c h rk rkid cache_k /\ In (Protect a) ops /\
+    snd e = fst (protect_offline c cache_k (rnd (fst e)) (rnd (fst e + 1)%nat) (rnd (fst e + 2)%nat) (a_data a) (a_sid a) (a_rkid a) (a_time a)).
+Proof.
+  unfold trace. induction ops as [|o ops IH]; intros cur cache k e Hinv H.
+  - destruct k; discriminate H.
+  - destruct o as [a|blob]; cbn [protect_many] in H.
+    + pose proof (protect_keeps_inv c h rk rkid Hhash Halg cache (rnd cur) (rnd (cur + 1)%nat) (rnd (cur + 2)%nat) (a_data a) (a_sid a) (a_rkid a) (a_time a) Hinv) as Hinv1.
+      destruct (protect_offline c cache (rnd cur) (rnd (cur + 1)%nat) (rnd (cur + 2)%nat) (a_data a) (a_sid a) (a_rkid a) (a_time a)) as [r cache1] eqn:Ep.
+      cbn [snd] in Hinv1.
+      destruct (protect_many c rnd (cur + 3)%nat cache1 ops) as [[tr cache2] cur2] eqn:E. cbn [fst] in H.
+      destruct k as [|k]; cbn [nth_error] in H.
+      * injection H as <-. exists cache, a. split; [exact Hinv|]. split; [left; reflexivity|]. cbn [fst snd]. rewrite Ep. reflexivity.
+      * specialize (IH (cur + 3)%nat cache1 k e Hinv1). rewrite E in IH. cbn [fst] in IH. destruct (IH H) as (ck & a' & Hk & Hin & He).
+        exists ck, a'. split; [exact Hk|]. split; [right; exact Hin|exact He].
+    + pose proof (unprotect_keeps_inv c h rk rkid Hhash Halg cache blob Hinv) as Hinv1.
+      destruct (unprotect_offline c cache blob) as [r cache1]. cbn [snd] in Hinv1.
+      destruct (IH cur cache1 k e Hinv1 H) as (ck & a' & Hk & Hin & He).
+      exists ck, a'. split; [exact Hk|]. split; [right; exact Hin|exact He].
+Qed.
+
+(* what the blob of one successful entry carries *)
+Lemma entry_in_blob rnd ops cur cache k cu B : cache_inv c h rk rkid cache ->
+  (forall a k, In (Protect a) ops -> (k < length (trace c rnd cur cache ops))%nat ->
+     call_ok (rnd (cur + 3 * k)%nat) (rnd (cur + 3 * k + 1)%nat) (rnd (cur + 3 * k + 2)%nat) a) ->
+  nth_error (trace c rnd cur cache ops) k = Some (cu, Ok B) ->
+  exists b kek data, blob_unpack B = Ok b /\ gcm_iv_of_parameters (b_enc_content_parameters b) = Ok (rnd (cu + 1)%nat) /\
+    kid_key_info (b_key_identifier b) = rnd (cu + 2)%nat /\
+    Ok (b_enc_content b) = gcm_enc c (rnd cu) (rnd (cu + 1)%nat) data /\ Ok (b_enc_cek b) = kw_wrap c kek (rnd cu).
+Proof.
+  intros Hinv Hok Hn. destruct (trace_entries_inv rnd ops cur cache k _ Hinv Hn) as (ck & a & Hk & Hin & He). cbn [fst snd] in He.
+  pose proof (trace_cursors _ _ _ _ _ _ _ Hn) as Hcu. cbn [fst] in Hcu.
+  assert (Lk : (k < length (trace c rnd cur cache ops))%nat) by (apply nth_error_Some; congruence).
+  pose proof (Hok a k Hin Lk) as Hok'. rewrite <- Hcu in Hok'.
+  destruct Hok' as (Er & Hso & Ht & Hr2 & Hr3 & s & Hs & Hsz). rewrite Er in He.
+  destruct (interval_of_time_ns (a_time a)) as [[l0 l1] l2] eqn:Ei. destruct (Hsz l0 l1 l2 eq_refl) as [Sw Sct].
+  destruct (protect_offline c ck (rnd cu) (rnd (cu + 1)%nat) (rnd (cu + 2)%nat) (a_data a) (a_sid a) (Some rkid) (a_time a)) as [r c1] eqn:Ep.
+  cbn [fst] in He. subst r.
+  destruct (in_blob c h rk rkid s (a_sid a) (a_time a) l0 l1 l2 ck _ _ _ (a_data a) B c1 Hhash Halg Hrk Hs Hso Ht Ei Hne
+              (cache_inv_ok c h rk rkid ck (target_sd s) l0 Hk) Hr2 Hr3 Sw Sct Ep) as (b & e0 & kek & p & Eu & _ & _ & Eiv & Eki & _ & _ & Ect & Ew & _).
+  exists b, kek, (a_data a). auto.
+Qed.
+
+Theorem fresh_blobs (I : IdealLaws c) rnd ops cur cache i j ci cj Bi Bj :
+  cache_inv c h rk rkid cache ->
+  (forall a k, In (Protect a) ops -> (k < length (trace c rnd cur cache ops))%nat ->
+     call_ok (rnd (cur + 3 * k)%nat) (rnd (cur + 3 * k + 1)%nat) (rnd (cur + 3 * k + 2)%nat) a) ->
+  rnd_distinct_below rnd (snd (protect_many c rnd cur cache ops)) -> i <> j ->
+  nth_error (trace c rnd cur cache ops) i = Some (ci, Ok Bi) -> nth_error (trace c rnd cur cache ops) j = Some (cj, Ok Bj) ->
+  exists bi bj ni nj, blob_unpack Bi = Ok bi /\ blob_unpack Bj = Ok bj /\
+    gcm_iv_of_parameters (b_enc_content_parameters bi) = Ok ni /\ gcm_iv_of_parameters (b_enc_content_parameters bj) = Ok nj /\ ni <> nj /\
+    kid_key_info (b_key_identifier bi) <> kid_key_info (b_key_identifier bj) /\
+    b_enc_cek bi <> b_enc_cek bj /\ b_enc_content bi <> b_enc_content bj /\ Bi <> Bj.
+Proof.
+  intros Hinv Hok Hd Hij Hi Hj.
+  destruct (entry_in_blob rnd ops cur cache i ci Bi Hinv Hok Hi) as (bi & keki & di & Eui & Eni & Eki & Ecti & Ewi).
+  destruct (entry_in_blob rnd ops cur cache j cj Bj Hinv Hok Hj) as (bj & kekj & dj & Euj & Enj & Ekj & Ectj & Ewj).
+  destruct (fresh_sequence_bounded c rnd ops cur cache i j _ _ Hd Hij Hi Hj) as (F1 & F2 & F3 & F4 & _). cbv zeta in *. cbn [fst] in *.
+  assert (Hct : b_enc_content bi <> b_enc_content bj) by (apply (distinct_ciphertexts c I _ _ _ _ _ _ _ _ (eq_sym Ecti) (eq_sym Ectj) F4)).
+  exists bi, bj, (rnd (ci + 1)%nat), (rnd (cj + 1)%nat). repeat (split; [assumption|]).
+  split; [rewrite Eki, Ekj; exact F3|].
+  split; [apply (distinct_wrapped_ceks c I _ _ _ _ _ _ (eq_sym Ewi) (eq_sym Ewj) F1)|].
+  split; [exact Hct|]. intros ->. rewrite Eui in Euj. apply Ok_inj in Euj. subst bj. now apply Hct.
+Qed.
+End History.
+
+(* instance: the history ex_ops over ex_rnd from the cache ex_cache meets every hypothesis of fresh_blobs *)
+Lemma ex_cache_inv : cache_inv symg SHA512 ex_rk ex_rkid ex_cache.
+Proof. split; [reflexivity|]. split; [intros k sd l0 e H|intros sd l0 e H]; discriminate H. Qed.
+Lemma ex_calls_ok : forall a k, In (Protect a) ex_ops -> (k < length (trace symg ex_rnd 0 ex_cache ex_ops))%nat ->
+  call_ok symg SHA512 ex_rk ex_rkid (ex_rnd (0 + 3 * k)%nat) (ex_rnd (0 + 3 * k + 1)%nat) (ex_rnd (0 + 3 * k + 2)%nat) a.
+Proof.
+  intros a k Hin Lk. assert (L3 : length (trace symg ex_rnd 0 ex_cache ex_ops) = 3%nat) by (vm_compute; reflexivity). rewrite L3 in Lk.
+  assert (Ha : a = ex_call [1; 2; 3] \/ a = ex_call []).
+  { cbn [In ex_ops] in Hin. destruct Hin as [H|[H|[H|[H|[]]]]]; try discriminate H; injection H as <-; auto. }
+  assert (Hk : k = 0%nat \/ k = 1%nat \/ k = 2%nat) by lia.
+  assert (Hi : forall l0 l1 l2, interval_of_time_ns ex_time = (l0, l1, l2) -> l0 = 361 /\ l1 = 31 /\ l2 = 23).
+  { intros l0 l1 l2 Ei. assert (E : (l0, l1, l2) = (361, 31, 23)) by (rewrite <- Ei; vm_compute; reflexivity). injection E as -> -> ->. auto. }
+  destruct Ha as [-> | ->]; destruct Hk as [-> | [-> | ->]];
+    (split; [reflexivity|]; split; [vm_compute; reflexivity|]; split; [cbn [ex_call a_time]; unfold ex_time; lia|];
+     split; [vm_compute; reflexivity|]; split; [vm_compute; reflexivity|];
+     exists (parsed ex_sid); split; [vm_compute; reflexivity|];
+     intros l0 l1 l2 Ei; destruct (Hi l0 l1 l2 Ei) as (-> & -> & ->); split; [ex_wrap_size|ex_gcm_size]).
+Qed.
+Example ex_fresh_blobs : forall i j ci cj Bi Bj, i <> j ->
+  nth_error ex_trace i = Some (ci, Ok Bi) -> nth_error ex_trace j = Some (cj, Ok Bj) ->
+  exists bi bj ni nj, blob_unpack Bi = Ok bi /\ blob_unpack Bj = Ok bj /\
+    gcm_iv_of_parameters (b_enc_content_parameters bi) = Ok ni /\ gcm_iv_of_parameters (b_enc_content_parameters bj) = Ok nj /\ ni <> nj /\
+    kid_key_info (b_key_identifier bi) <> kid_key_info (b_key_identifier bj) /\
+    b_enc_cek bi <> b_enc_cek bj /\ b_enc_content bi <> b_enc_content bj /\ Bi <> Bj.
+Proof.
+  intros i j ci cj Bi Bj Hij Hi Hj.
+  apply (fresh_blobs symg SHA512 ex_rk ex_rkid ltac:(vm_compute; reflexivity) eq_refl eq_refl symg_kdf_nonempty symg_ideal
+           ex_rnd ex_ops 0%nat ex_cache i j ci cj Bi Bj ex_cache_inv ex_calls_ok); auto.
+  intros x y _ _. apply ex_rnd_distinct.
+Qed.
+
+Lemma cache_inv_kept c h rk rkid : rk_hash rk = Ok h -> rk_kdf_alg rk = STR_KDF_ALG ->
+  forall cache, cache_inv c h rk rkid cache ->
+  (forall r1 r2 r3 data sid rid time_ns, cache_inv c h rk rkid (snd (protect_offline c cache r1 r2 r3 data sid rid time_ns))) /\
+  (forall bs, cache_inv c h rk rkid (snd (unprotect_offline c cache bs))).
+Proof.
+  intros Hh Ha cache Hinv. split; [intros; now apply protect_keeps_inv|intros; now apply unprotect_keeps_inv].
+Qed.
